@@ -128,11 +128,95 @@ _NESTED_WAIT_DONE = {
 }
 
 
+# ---- hooks of the batch that raise: batch.flush() ITSELF fails out of the scheduler (a failing flush BODY does not do
+# that - its error is stored on the batch).  params.kinds[k]: `cancel_raise: id` (_cancel() raises while the batch
+# completes with its flush error), `switch_raise: [n, id]` (the n-th _try_switch_active_batch() call raises),
+# `to_str_raise: id` (dump_perf_stats fails under COLLECT_PERF_STATS); params.before_sub = [kind, "flush" | "value"]
+# (a before-flush subscriber that flushes the batch / asks an item for its value itself, so the scheduler's flush() gets
+# BatchingError).  The error then leaves value().  OUTSIDE the Coq model (Machine.flush_batch has no hook that can
+# raise; a flush always ends normally there; switch_raise is generated for the FIRST call only - flush() fails before the
+# body runs - because a _try_switch_active_batch() that raises while the batch completes breaks its documented "must never
+# throw" contract and nothing is claimed about the items then): no correspondence, only the program-independent monitors of
+# machmon.analyse_flush_nesting speak - brackets closed (the after event even when the flush fails), flushed at most
+# once, items of a batch whose body ran are completed when the scheduler flush is over.
+def _hook_case(n0, n1, kinds, extra=None, second_root=True):
+    its = [{"new": {"item": [0, i, {"set": i}]}} for i in range(n0)] + [{"new": {"item": [1, 10 + i, {"set": 10 + i}]}} for i in range(n1)]
+    roots = [[{"op": "yield", "x": "x1", "s": {"tuple": its}}, {"op": "return", "e": {"var": "x1"}}]]
+    if second_root:
+        # an ordinary computation afterwards: its flushes are bracketed as usual
+        roots.append([{"op": "yield", "x": "y1", "s": {"list": [{"new": {"item": [1, 20, {"set": 20}]}}, {"new": {"item": [1, 21, {"set": 21}]}}]}},
+                      {"op": "return", "e": {"var": "y1"}}])
+    p = {"kinds": kinds, "hook_faults": True}
+    p.update(extra or {})
+    return {"roots": roots, "params": p}
+
+
+_HOOKS = [
+    _hook_case(3, 1, {"0": {"raise": [1, 1001], "cancel_raise": 1004}}),                       # _flush raises, then _cancel raises
+    _hook_case(2, 0, {"0": {"raise": [0, 1001], "via_cancel": True, "cancel_raise": 1004}}, second_root=False),
+    _hook_case(3, 1, {"0": {"switch_raise": [1, 1004]}}),                                        # flush() fails before the body runs
+    _hook_case(3, 1, {}, {"before_sub": [0, "flush"]}),
+    _hook_case(2, 1, {"0": {"raise": [1, 1001]}}, {"before_sub": [0, "value"]}),
+    _hook_case(3, 1, {"0": {"to_str_raise": 1004}}, {"options": {"COLLECT_PERF_STATS": True}, "clock": [5]}),
+]
+
+
+def _is_hooks(c):
+    return bool(c.get("params", {}).get("hook_faults"))
+
+
+def _hooks_gen(rng, tier):
+    out = []
+    for _ in range(24 if tier == "quick" else 400):
+        g = machgen.Gen(rng, **dict(_base, name="hook-faults", p_sync=rng.choice([0, 0, 0.2]), p_flush_raise=0.5,
+                                    p_via_cancel=0.3, p_try=rng.choice([0.12, 0.3]), roots=(1, 2)))
+        c = g.case()
+        p = c.setdefault("params", {})
+        ks = p.setdefault("kinds", {})
+        for _m in range(1 if rng.random() < 0.75 else 2):
+            mode = rng.choice(["cancel", "cancel", "switch", "before", "perf"])
+            k = str(rng.randrange(2))
+            if mode == "cancel":
+                kk = ks.setdefault(k, {})
+                kk.setdefault("raise", [rng.randrange(0, 3), 1001])
+                kk["cancel_raise"] = 1004
+            elif mode == "switch":
+                ks.setdefault(k, {})["switch_raise"] = [1, 1004]
+            elif mode == "before":
+                p["before_sub"] = [int(k), rng.choice(["flush", "value"])]
+            else:
+                ks.setdefault(k, {})["to_str_raise"] = 1004
+                p["options"] = {"COLLECT_PERF_STATS": True}
+                p["clock"] = [5]
+        p["hook_faults"] = True
+        out.append((c, {"profile": "hook-faults"}))
+    return out
+
+
+def _hang_monitor(c, io, build):
+    # only the hook-fault class has a reading of a hang that needs no knowledge of the program: these programs finish in
+    # milliseconds unless the scheduler spins on a task whose awaited item is never answered
+    if not _is_hooks(c):
+        return []
+    ks = c.get("params", {}).get("kinds", {})
+    what = sorted({h.replace("_", "-") for k in ks.values() for h in k if h.endswith("_raise")} |
+                  ({"before-subscriber-%s" % c["params"]["before_sub"][1]} if c["params"].get("before_sub") else set()))
+    return [dict(clause="C05:item-completion", site="scheduler-spins-on-unanswered-items:%s" % "+".join(what),
+                 msg="the computation did not end: after a hook of the batch raised, the scheduler keeps running without "
+                     "flushing anything (a flushed batch whose items were never answered)")]
+
+
+def _impl_only(c):
+    return _is_reentrant(c) or _is_hooks(c)
+
+
 def _extra_monitors(c, io, build):
+    if _is_hooks(c):
+        return machmon.analyse_flush_nesting(c, io, items_answered=True)
     return machmon.analyse_flush_nesting(c, io) if _is_reentrant(c) else []
 
 
 mach.install(globals(), "C05", ("EvBefore", "EvFlush", "EvItemDone", "EvAfter", "EvIllegal"), ("C05:",), PROFILES,
-             n_quick=300, n_thorough=25000, nontrivial=_nontrivial, level="proof", corpus=[_KEPT_FLUSHED, _FLUSH_BASE_EXC, _LATE_ITEMS, _NESTED_WAIT_DONE] + _REENTRANT,
-             impl_only=_is_reentrant, extra_monitors=_extra_monitors,
-             extra_gen=mach.extra_all(_extra_gen, mach.extra_profiles(_BASE_ERR, 40, 3000)))
+             n_quick=300, n_thorough=25000, nontrivial=_nontrivial, level="proof", corpus=[_KEPT_FLUSHED, _FLUSH_BASE_EXC, _LATE_ITEMS, _NESTED_WAIT_DONE] + _REENTRANT + _HOOKS,
+             impl_only=_impl_only, hang_monitor=_hang_monitor, extra_monitors=_extra_monitors,
+             extra_gen=mach.extra_all(_extra_gen, mach.extra_profiles(_BASE_ERR, 40, 3000), _hooks_gen))
